@@ -375,6 +375,23 @@ class Interp:
                 r, model = self._check([z3.Not(goal)], use_q=True)
         else:
             r, model = self._check([z3.Not(goal)])
+        if r == z3.unknown:
+            # `unknown` from the incremental solver depends on the history of the process (names of
+            # fresh constants, learned lemmas): retry in a fresh solver with other seeds, so that a
+            # verdict does not depend on which functions a pool worker happened to verify before
+            for seed in (1, 2, 3):
+                s2 = z3.Solver()
+                s2.set("rlimit", int(RLIMIT_PER_MS * self.timeout_ms))
+                s2.set("random_seed", seed)
+                s2.add(self.S.assertions())
+                for q in self.qfacts:
+                    s2.add(q)
+                s2.add(z3.Not(goal))
+                r = s2.check()
+                self.solver_calls += 1
+                if r != z3.unknown:
+                    model = s2.model() if r == z3.sat else None
+                    break
         ob.time += time.time() - t0
         if r == z3.unsat:
             return True
@@ -441,6 +458,15 @@ class Interp:
         """Fresh symbolic value of a type spec (see World.SHAPES)."""
         if isinstance(spec, (list, tuple)) and spec and spec[0] == "tuple":
             return VTuple([self.fresh(s, f"{label}_{i}") for i, s in enumerate(spec[1:])])
+        if isinstance(spec, tuple) and len(spec) == 2 and spec[0] == "list" and isinstance(spec[1], str) \
+                and spec[1].startswith("ntuple:"):
+            # a list of named tuples: each read yields an arbitrary tuple of the declared shape
+            from .world import Seq
+            n = self.fresh_int(label + "_len")
+            self.assume(n.t >= 0)
+            v = VOpaque(label)
+            v.seq = Seq(length=n.t, item=lambda i: self.fresh(spec[1], label + "_item"))
+            return v
         if isinstance(spec, (list, tuple)) and spec and spec[0] == "list":
             return self.fresh_list(spec[1], label)
         if spec == "mm" or (isinstance(spec, tuple) and spec and spec[0] == "mm"):
@@ -825,6 +851,11 @@ class Interp:
         if h is not None and h(self, v, node):
             return
         raise Unsupported(f"str() of {v!r}")
+
+    def ev_NamedExpr(self, node):
+        v = self.ev(node.value)
+        self.assign(node.target, v, node)
+        return v
 
     def ev_IfExp(self, node):
         c = self.truth(self.ev(node.test))
@@ -1463,6 +1494,12 @@ class Interp:
     def ev_GeneratorExp(self, node):
         return self.world.comprehension(self, node)
 
+    def ev_SetComp(self, node):
+        # the elements are evaluated (their obligations count); the result is an abstract set
+        self.world.comprehension(self, node)
+        f = VFunc(None, builtin="bi:set", name="set")
+        return self.world.call_builtin(self, f, [], {}, node)
+
     def call(self, f, args, kwargs, node):
         if isinstance(f, VFunc):
             pre = getattr(f, "pre", None)
@@ -1684,13 +1721,42 @@ class Interp:
                 self.world.trusted_used.add(f"class invariant assumed at calls of {ref.qual}: {clause}")
                 self.assume(self.spec_eval(clause, env, ref))
             if c.decreases and ref.qual == self.fnref.qual and self.entry_env is not None:
-                m_callee = self.as_int(self.spec_value_in(c.decreases, env, ref), node)
-                m_caller = self.as_int(self.spec_value_in(c.decreases, self.entry_env, ref), node)
-                goal = z3.And(m_callee >= 0, m_callee < m_caller)
+                if isinstance(c.decreases, (list, tuple)):
+                    # lexicographic measure; the caller's side is taken in the entry state (a
+                    # component may be a ghost or depend on mutable state)
+                    goal = z3.BoolVal(False)
+                    eq_so_far = z3.BoolVal(True)
+                    nonneg = []
+                    for d in c.decreases:
+                        mc = self.as_int(self.spec_value_in(d, env, ref), node)
+                        saved_old = self.st.old
+                        try:
+                            if self.live_olds:
+                                self.st.old = self.live_olds[0]
+                            me = self.as_int(self.spec_value_in(f"old({d})", self.entry_env, ref), node)
+                        finally:
+                            self.st.old = saved_old
+                        nonneg.append(mc >= 0)
+                        goal = z3.Or(goal, z3.And(eq_so_far, mc < me))
+                        eq_so_far = z3.And(eq_so_far, mc == me)
+                    goal = z3.And(goal, *nonneg)
+                else:
+                    m_callee = self.as_int(self.spec_value_in(c.decreases, env, ref), node)
+                    m_caller = self.as_int(self.spec_value_in(c.decreases, self.entry_env, ref), node)
+                    goal = z3.And(m_callee >= 0, m_callee < m_caller)
                 if getattr(c, "decreases_when", None):
                     goal = z3.Implies(self.spec_eval(c.decreases_when, self.entry_env, ref), goal)
-                self.oblige("VARIANT", f"recursive call decreases {c.decreases}", goal,
-                            getattr(node, "lineno", 0))
+                vtext = f"recursive call decreases {c.decreases}"
+                if isinstance(c.decreases, (list, tuple)):
+                    nm = ref.short.split(".")[-1]
+                    calls = sorted((n for n in ast.walk(self.fnref.node) if isinstance(n, ast.Call) and (
+                        (isinstance(n.func, ast.Name) and n.func.id == nm)
+                        or (isinstance(n.func, ast.Attribute) and n.func.attr == nm))),
+                        key=lambda n: (n.lineno, n.col_offset))
+                    k = next((i + 1 for i, n in enumerate(calls) if n.lineno == getattr(node, "lineno", -1)
+                              and n.col_offset == getattr(node, "col_offset", -1)), 0)
+                    vtext = f"recursive call #{k} decreases ({', '.join(c.decreases)}) lexicographically"
+                self.oblige("VARIANT", vtext, goal, getattr(node, "lineno", 0))
         if not st.spec and self.depth == 0 and self.contract is not None and self.contract.call_pre \
                 and isinstance(node, ast.Call):
             self.check_call_pre(ref, env, node)
@@ -1789,6 +1855,11 @@ class Interp:
             for g in c.ghost_modifies:
                 self.ghost_get(g)
                 st.ghost[g] = VInt(z3.Int(self.namer.fresh("ghost_" + g)))
+                from . import namesets
+                namesets.havoc_for_ghost(self, g)
+            if getattr(c, "modifies_maps", False):
+                from . import maps
+                maps.havoc_heap(self)
             for g in c.ghost_calls:
                 self.ghost_bump(g)   # the ghost counts the calls of this function
         # outcomes: normal + each declared exception class
@@ -2400,6 +2471,45 @@ class Interp:
         for g in self.world.callee_ghost_modifies(self, calls):
             self.ghost_get(g)
             st.ghost[g] = VInt(z3.Int(self.namer.fresh("ghost_" + g)))
+            from . import namesets
+            namesets.havoc_for_ghost(self, g)
+        # dicts of the map heap that the loop body (or a callee that declares it) stores into
+        map_written = False
+        for x in ast.walk(ast.Module(body=list(node.body) + list(getattr(node, "orelse", [])), type_ignores=[])):
+            tgt = None
+            if isinstance(x, ast.Subscript) and isinstance(x.ctx, (ast.Store, ast.Del)) and isinstance(x.value, ast.Name):
+                tgt = st.env.get(x.value.id)
+            elif isinstance(x, ast.Call) and isinstance(x.func, ast.Attribute) and isinstance(x.func.value, ast.Name) \
+                    and x.func.attr in ("setdefault", "pop", "update", "clear", "popitem"):
+                tgt = st.env.get(x.func.value.id)
+            if getattr(tgt, "kind", None) == "map":
+                map_written = True
+                from . import maps
+                rg = maps.rank_ghost(tgt)
+                if rg is not None:
+                    self.ghost_get(rg)
+                    gv = z3.Int(self.namer.fresh("ghost_" + rg))
+                    st.ghost[rg] = VInt(gv)
+                    self.assume(gv >= 0)
+        if not map_written:
+            map_written = self.world.callee_modifies_maps(self, calls)
+        if map_written:
+            from . import maps
+            maps.havoc_heap(self)
+        # name sets (visited sets) the loop body adds to: contents and measure unknown
+        for x in calls:
+            f = x.func
+            if isinstance(f, ast.Attribute) and f.attr in ("add", "update", "discard", "clear", "remove"):
+                tgt = None
+                if isinstance(f.value, ast.Name):
+                    tgt = st.env.get(f.value.id)
+                elif isinstance(f.value, ast.Attribute):
+                    for key, val in st.heap.items():
+                        if key[1] == f.value.attr and getattr(val, "kind", None) == "nameset":
+                            tgt = val
+                if getattr(tgt, "kind", None) == "nameset":
+                    from . import namesets
+                    namesets.havoc(self, tgt)
         # lists mutated via methods or aliases bound to their methods
         mutated = self.world.mutated_lists(self, calls)
         for n in names:
@@ -2566,6 +2676,10 @@ class Interp:
             if not self.feasible():
                 raise _PathEnd()
             self.assign(node.target, seq.item(i), node)
+            if isinstance(node.iter, ast.Attribute) and isinstance(node.iter.value, ast.Name) \
+                    and isinstance(node.target, ast.Name):
+                from . import namesets
+                namesets.child_fact(self, self.st.env.get(node.target.id), self.st.env.get(node.iter.value.id))
             self.iter_snaps.append(self.st.snapshot())
             fell_through = True
             try:
